@@ -558,6 +558,11 @@ pub fn run(tier: &str, seed: u64) -> Report {
   }
   report.count_n("corpus-emitted-modules", corpus_modules);
   report.exhaustive.push(format!("tree checks on the fast-check output of all {} spec packages under tests/specs/graph/fast_check", files.len()));
+  // the leavable analysis on generated expression trees, against DG/Leave.lean and the statement
+  {
+    let mut rr = Rng::new(seed ^ 0xC10_1EA);
+    crate::leave::leavable_part(&mut report, &mut batch, &mut rr, if tier == "thorough" { 6000 } else { 600 });
+  }
   batch.finish(&mut report, "C10");
   report
 }
